@@ -417,7 +417,7 @@ func c07Check(c *ev.Collector, k c07Case) {
 		}
 		// user code only ever sees messages that decode from the request
 		if len(delivered) > 0 {
-			rq := refwire.DecodeRequest(wireProto(sel), k.Kind == KUnary, "POST", req.Header, body, true, AnyDecompress)
+			rq := refwire.DecodeRequestAsReceiver(wireProto(sel), k.Kind == KUnary, "POST", req.Header, body, true, AnyDecompress)
 			i := 0
 			for _, d := range delivered {
 				found := false
@@ -440,7 +440,7 @@ func c07Check(c *ev.Collector, k c07Case) {
 		}
 		// a well-formed multi-message body answered ok: the draining handler received exactly its frames
 		if code == "ok" && k.Kind.ClientStreams() && !(sel == PConnect && k.Kind == KUnary) && encAlg == "" {
-			rq := refwire.DecodeRequest(wireProto(sel), false, "POST", req.Header, body, true, AnyDecompress)
+			rq := refwire.DecodeRequestAsReceiver(wireProto(sel), false, "POST", req.Header, body, true, AnyDecompress)
 			if len(rq.Problems) == 0 {
 				var wantMsgs [][]byte
 				decodable := true
@@ -463,7 +463,7 @@ func c07Check(c *ev.Collector, k c07Case) {
 		}
 		// raw bodies: success implies that everything the handler consumed was well-formed
 		if k.Body == "raw" && code == "ok" && k.Kind.ClientStreams() && !(sel == PConnect && k.Kind == KUnary) {
-			rq := refwire.DecodeRequest(wireProto(sel), false, "POST", req.Header, body, true, AnyDecompress)
+			rq := refwire.DecodeRequestAsReceiver(wireProto(sel), false, "POST", req.Header, body, true, AnyDecompress)
 			judgeable := true
 			var framing []string
 			for _, p := range rq.Problems {
